@@ -94,7 +94,48 @@ func helperReads(e *helperEntry, p, q *radius.Packet) string {
 			g += "!"
 		}
 	}
-	return "L=" + l + "|G=" + g
+	return "L=" + l + "|G=" + g + "|V=" + helperVariants(e, p, q)
+}
+
+// helperVariants: X_Get, X_GetString, X_LookupString and X_GetStrings must tell the same story as
+// X_Lookup and X_Gets (same tag, same bytes, error exactly when they err; Get* return zero values then).
+func helperVariants(e *helperEntry, p, q *radius.Packet) string {
+	var bad []string
+	// X_Get is "X_Lookup with the error dropped": it returns whatever X_Lookup returned
+	tag, v, err := e.Lookup(p, q)
+	gt, gv := e.Get(p, q)
+	if gt != tag || showGval(e, gv) != showGval(e, v) {
+		bad = append(bad, "Get")
+	}
+	if e.LookupString != nil {
+		st, ss, serr := e.LookupString(p, q)
+		if (serr != nil) != (err != nil) || (err == nil && (st != tag || ss != string(v.B))) {
+			bad = append(bad, "LookupString")
+		}
+		g2t, g2s := e.GetString(p, q)
+		if g2t != st || g2s != ss {
+			bad = append(bad, "GetString")
+		}
+	}
+	if e.GetStrings != nil && e.Gets != nil {
+		ts, vs, gerr := e.Gets(p, q)
+		sts, svs, serr := e.GetStrings(p, q)
+		same := (gerr != nil) == (serr != nil) && len(vs) == len(svs) && len(ts) == len(sts)
+		if same {
+			for i := range vs {
+				if string(vs[i].B) != svs[i] || (i < len(ts) && ts[i] != sts[i]) {
+					same = false
+				}
+			}
+		}
+		if !same {
+			bad = append(bad, "GetStrings")
+		}
+	}
+	if len(bad) == 0 {
+		return "ok"
+	}
+	return strings.Join(bad, "+")
 }
 
 func evalHelper(op string, args []string) string {
@@ -160,6 +201,11 @@ func evalHelper(op string, args []string) string {
 					r := helperReads(e, p, q)
 					obs = append(obs, "lookup|"+showAttributes(p.Attributes)+"|"+r)
 				case "wire":
+					// a salt-encrypted attribute travels in a reply: the parsed reply then carries the RESPONSE
+					// authenticator, and the getters must decrypt with the request's (q)
+					if e.Encrypt == 2 {
+						p.Code = 2
+					}
 					w, err := p.Encode()
 					if err != nil {
 						obs = append(obs, "wire=err")
@@ -398,6 +444,22 @@ func (g *Gen) helperOps(e *helperEntry) string {
 			ops = append(ops, "wire")
 		default:
 			ops = append(ops, "set:"+tv, "lookup")
+		}
+	}
+	if e.Encrypt == 2 {
+		// after travelling as a reply the packet is only read (a client does not re-encrypt into a received reply)
+		var kept []string
+		wired := false
+		for _, o := range ops {
+			if o == "wire" {
+				wired = true
+				continue
+			}
+			kept = append(kept, o)
+		}
+		ops = kept
+		if wired || g.Chance(1, 3) {
+			ops = append(ops, "wire", "lookup")
 		}
 	}
 	return strings.Join(ops, ",")
